@@ -4,6 +4,7 @@ import (
 	"fmt"
 	"go/types"
 	"os"
+	"regexp"
 	"sort"
 	"strings"
 
@@ -124,6 +125,52 @@ func loadWorld(repo, stubsDir string) (*World, error) {
 			w.contractPkg[c] = pkg
 		}
 	}
+	// opaque functions: uninterpreted, with a defining equation that is
+	// instantiated only for the applications that occur (pattern)
+	for _, sf := range sfs {
+		for _, fd := range sf.Funcs {
+			if !fd.Opaque {
+				continue
+			}
+			st, env := w.scratch(fd.pkg)
+			var decls, args []string
+			for _, p := range fd.Params {
+				gt, sort := w.resolveTypeSafe(fd.pkg, p.Type)
+				name := p.Name + "!o"
+				env.vars[p.Name] = SVal{t: Term{q(name), sort}, gt: gt}
+				decls = append(decls, fmt.Sprintf("(%s %s)", q(name), sortText(sort)))
+				args = append(args, q(name))
+			}
+			body, err := func() (t Term, err error) {
+				defer func() {
+					if r := recover(); r != nil {
+						if se, ok := r.(specErr); ok {
+							err = fmt.Errorf("%s", se.msg)
+							return
+						}
+						panic(r)
+					}
+				}()
+				v := env.eval(fd.Body)
+				return env.rv(v), nil
+			}()
+			if err != nil {
+				return nil, fmt.Errorf("%s: opaque func %s: %v", fd.Where, fd.Name, err)
+			}
+			if len(st.heap) > 0 {
+				return nil, fmt.Errorf("%s: opaque func %s must not read the heap", fd.Where, fd.Name)
+			}
+			app := "(" + q(fd.Name) + " " + strings.Join(args, " ") + ")"
+			ai := &axiomInfo{name: "def:" + fd.Name, syms: []string{fd.Name},
+				text: fmt.Sprintf("(forall (%s) (! (= %s %s) :pattern (%s) :qid def_%s))", strings.Join(decls, " "), app, body.S, app, strings.NewReplacer("-", "_").Replace(fd.Name))}
+			for n := st.tail; n != nil; n = n.parent {
+				if n.kind == 'd' {
+					ai.decls = append(ai.decls, n.text+"\n")
+				}
+			}
+			w.axiomList = append(w.axiomList, ai)
+		}
+	}
 	// axioms are evaluated once, in a scratch state
 	for _, sf := range sfs {
 		pkg := pkgByShort[sf.Pkg]
@@ -181,6 +228,12 @@ func (w *World) evalAxiom(pkg *types.Package, ax *Clause) (*axiomInfo, error) {
 	if err != nil {
 		return nil, fmt.Errorf("%s: %v", ax.Where, err)
 	}
+	qid := regexp.MustCompile(`:qid spec\d+`)
+	nm := strings.NewReplacer("-", "_", " ", "_").Replace(ax.Name())
+	if nm == "" {
+		nm = "axiom"
+	}
+	t.S = qid.ReplaceAllString(t.S, ":qid ax_"+nm)
 	ai := &axiomInfo{name: ax.Name() + "@" + ax.Where, text: t.S}
 	for n := s.tail; n != nil; n = n.parent {
 		if n.kind == 'd' {
